@@ -1,6 +1,8 @@
-(* C07 - Every output format encodes the same derivation.  Property theorems only (lemmas: FmtProofs.v, FmtCodec.v;
-   models: Fmt.v).  The readers of auto / ptb / ja / xml / jigg_xml are covered by P_C08, P_C20, P_C15;
-   deriv, html and prolog are covered by the independent Python readers of harness/fmt_dec.py (declared partial here).
+(* C07 - Every output format encodes the same derivation.  Property theorems only (lemmas: FmtProofs.v, FmtCodec.v, FmtDerivProofs.v,
+   FmtDerivTextProofs.v, FmtPrologProofs.v, FmtHtmlProofs.v; models: Fmt.v, FmtDeriv.v, FmtDerivText.v, FmtProlog.v, FmtHtml.v).
+   The readers of auto / ptb / ja / xml / jigg_xml are covered by P_C08, P_C20, P_C15.
+   deriv, prolog (English and Japanese) and html have text-level models and round-trip theorems below (second half of the file); what is
+   still outside a theorem: the html document around the <math> elements (string comparison only), Python's str.lower beyond A-Z (prolog).
    Tables (denormalize, punctuations, cat_split) come from GenTables.v, regenerated from the source on every run. *)
 From Coq Require Import List NArith Bool Arith.
 From Coq Require String.
@@ -149,6 +151,17 @@ Theorem C07_prolog_ja_view_skeleton : forall t v, view_prolog_ja t = Some v ->
   exists s, tree_skeleton t = Some s /\ skeleton_of v = vmapc plc_ja s.
 Proof. exact view_prolog_ja_skeleton. Qed.
 
+(* --- prolog, the whole output of to_string(batch, format='prolog') (declarations, empty line, one clause per tree): after taking the
+   declarations off as a fixed text the reader gets, clause after clause, the records of the batch in order - sentence number (all n-best
+   trees of a sentence under its number, cf. C07_numbering) and view *)
+Theorem C07_prolog_en_doc_roundtrip : forall b txt, Forall (Forall (fun t => pl_okb_en t = true)) b -> prolog_en_doc b = Some txt ->
+  dec_prolog_doc dec_en txt = doc_views view_prolog_en b /\ dec_prolog_doc dec_en txt <> None.
+Proof. exact prolog_en_doc_roundtrip. Qed.
+
+Theorem C07_prolog_ja_doc_roundtrip : forall b txt, Forall (Forall (fun t => pl_okb_ja t = true)) b -> prolog_ja_doc b = Some txt ->
+  dec_prolog_doc dec_ja txt = doc_views view_prolog_ja b /\ dec_prolog_doc dec_ja txt <> None.
+Proof. exact prolog_ja_doc_roundtrip. Qed.
+
 (* the rule tables of the source (GenTables.v) can be read back: every _op_mapping entry is a name followed by `(`, lp -> lx, conj / conj2 ->
    conj, no other functor is t / lx / conj / lp; every _ja_combinators entry is a name other than t *)
 Theorem C07_prolog_tables_readable : en_table_ok = true /\ ja_table_ok = true.
@@ -274,6 +287,10 @@ Example ex_prolog_en_errors :
   print_prolog_en 1 (Bin c_np [99;111;110;106] [62] true (lf c_np [97]%N) (lf c_np [98]%N)) = None /\
   print_prolog_en 1 (Leaf c_np [] s_lex s_lexsym) = None.
 Proof. vm_compute. repeat split. Qed.
+Example ex_prolog_en_doc : option_map (dec_prolog_doc dec_en) (prolog_en_doc [[ex_pl_tree; lf c_np [97]]; [lf c_vp [98]]]) =
+  Some (doc_views view_prolog_en [[ex_pl_tree; lf c_np [97]]; [lf c_vp [98]]]) /\
+  option_map (map fst) (doc_views view_prolog_en [[ex_pl_tree; lf c_np [97]]; [lf c_vp [98]]]) = Some [T "1"; T "1"; T "2"].
+Proof. vm_compute. split; reflexivity. Qed.
 Example ex_prolog_ja_dom : pl_okb_ja ex_pl_ja_tree = true.
 Proof. vm_compute. reflexivity. Qed.
 Example ex_prolog_ja : option_map dec_prolog_ja (print_prolog_ja 3 ex_pl_ja_tree) = Some (option_map (fun v => (T "3", v)) (view_prolog_ja ex_pl_ja_tree)) /\
